@@ -501,6 +501,11 @@ def check_C15(run):
                              ("mergelist", "mergelist", 100, 2000, RULE_HIST + "; profile mergelist: lists included — impl = model must "
                               "hold; spec failures on list calls after a Merge are attributed to known finding F14")],
                        known=known_merge)
+    n = 60 if run.tier == "quick" else 1200
+    hist_suite(run, "mergefault", ["hist", "-n", n, "-x", "mergefault"],
+               "Merge with an I/O error injected at a random file mutation (create, truncate, record write with a partial write, "
+               "sync, remove): whether Merge reports success or failure, every read must be unchanged in the running process and "
+               "after reopen, and a write committed afterwards must be durable", use_driver=False)
 
 
 def check_C16(run):
